@@ -276,10 +276,81 @@ pub fn gen_boundary_message(rng: &mut Rng, target_total: usize, seals: &[Seal], 
 pub fn mutate(rng: &mut Rng, src: &[u8], other: Option<&[u8]>) -> Vec<u8> {
     let mut b = src.to_vec();
     let n = b.len();
-    match rng.below(16) {
+    match rng.below(21) {
         0 if n > 0 => {
             let i = rng.usize(n);
             b[i] ^= 1 << rng.usize(8);
+        }
+        16 => {
+            // the message as other layers frame it: an RFC 4571 length prefix, a TURN ChannelData
+            // header, two messages back to back, a frame cut short
+            let l = (n as u16).to_be_bytes();
+            b = match rng.below(5) {
+                0 => [&l[..], src].concat(),
+                1 => [&l[..], &src[..n - n.min(rng.usize(8))]].concat(),
+                2 => [&[0x40u8, rng.byte()][..], &l[..], src].concat(),
+                3 => [src, src].concat(),
+                _ => [&(n as u16 + 2).to_be_bytes()[..], src, &[0u8, 0][..]].concat(),
+            };
+        }
+        17 if n >= 20 => {
+            // a FINGERPRINT / integrity-shaped attribute BEHIND the advertised size, its CRC computed
+            // the way a sender that forgot to update the length field would
+            let mut with_len = b.clone();
+            if rng.chance(1, 2) {
+                let l = (n - 20 + 8) & 0xffff;
+                set_len(&mut with_len, l);
+            }
+            let crc = crate::refimpl::crypto::crc32_fast(&with_len) ^ 0x5354_554e;
+            b.extend_from_slice(&[0x80, 0x28, 0x00, 0x04]);
+            b.extend_from_slice(&crc.to_be_bytes());
+        }
+        18 if n >= 20 && n - 20 + 2_100 <= 0xffff => {
+            // long material behind whatever ends the message (an ordinary attribute, a second copy of
+            // the sealing attributes far away from the first): more than a small look-back window
+            let big = 130 + rng.usize(1_900);
+            push_tlv(&mut b, &Tlv::new(*rng.pick(&[0x8022u16, ORD_REQ, ORD_OPT, 0x0013]), rng.bytes(big)));
+            if rng.chance(1, 2) {
+                if let Some(off) = pick_attr_offset(rng, src) {
+                    let l = ((src[off + 2] as usize) << 8) | src[off + 3] as usize;
+                    let end = (off + 4 + l + (4 - l % 4) % 4).min(n);
+                    b.extend_from_slice(&src[off..end]);
+                }
+            }
+            let l = b.len() - 20;
+            set_len(&mut b, l & 0xffff);
+            if rng.chance(1, 3) {
+                seal(&mut b, Seal::Fingerprint, &[]);
+            }
+        }
+        19 if n >= 24 => {
+            // very many small attributes in front of what is there (beyond any small counter); such
+            // messages are expensive to check, so most draws fall back to a bit flip
+            let cnt = *rng.pick(&[255usize, 256, 257, 1021, 1022, 1023, 1024, 1025, 4096]);
+            if !rng.chance(1, 60) {
+                let i = rng.usize(n);
+                b[i] ^= 1 << rng.usize(8);
+            } else if n - 20 + cnt * 4 <= 0xffff {
+                let mut nb = src[..20].to_vec();
+                for k in 0..cnt {
+                    nb.extend_from_slice(&[0xc0 | ((k >> 8) as u8 & 0x3f), k as u8, 0, 0]);
+                }
+                nb.extend_from_slice(&src[20..]);
+                b = nb;
+                if rng.chance(9, 10) {
+                    // (sealing attributes behind them are stale now: refused, or dissolved)
+                    let l = b.len() - 20;
+                    set_len(&mut b, l);
+                }
+            }
+        }
+        20 if n >= 20 => {
+            // the type field walked through values that other protocols on the same port use
+            // (DTLS 20..63, RTP 128..191, ChannelData 64..79, a CRLF keep-alive)
+            b[0] = *rng.pick(&[0x0du8, 0x14, 0x16, 0x17, 0x3f, 0x40, 0x4f, 0x80, 0xbf, 0x13, 0x00, 0x3e]);
+            if rng.chance(1, 3) {
+                b[1] = 0x0a;
+            }
         }
         1 if n > 0 => {
             for _ in 0..1 + rng.usize(4) {
